@@ -3,6 +3,11 @@ CLAIMS = {
          "Decides: operator symbol -> opcode -> handler -> py API -> dunder chain; dispatch skeleton (operand order, reflection guard). "
          "Does not decide: computed values, run-time dunder lookup on user classes. Trusted: go/types, the operator table in gpycheck/c01_ops.go.",
          "DESIGN.md §4 C01"),
+ "C09": ("must-hold lockset walk + statement-order/pairing analysis over the context lifecycle methods (typed AST)",
+         "Decides: release iff admitted in every caller; lifecycle fields only under the context mutex; closed-test and increment in one critical section; "
+         "closed set in the critical section that observes quiescence (or before the wait); wait < callbacks < close(done) inside sync.Once; entry points admitted first. "
+         "Does not decide: liveness/deadlock freedom, re-entrant Close from inside an execution. Trusted: go/types, sync semantics.",
+         "DESIGN.md §4 C09"),
 }
 _todo = "rules for this property are designed (DESIGN.md §4) but not yet implemented in this revision of the checker"
-NA = {p: _todo for p in ["C02","C03","C04","C05","C06","C07","C08","C09","C10","C11","C12","C13","C14","C15","C16","C17","C18","C19","C20"]}
+NA = {p: _todo for p in ["C02","C03","C04","C05","C06","C07","C08","C10","C11","C12","C13","C14","C15","C16","C17","C18","C19","C20"]}
